@@ -22,6 +22,8 @@ HARNESSES = [
     H("c11_dataset_graph_forwards", "DatasetGraph forwards (s,p,o,[g]) for a default and a named graph", bound=B, timeout=900),
     H("c11_dataset_graph_mutations", "MutableGraph for DatasetGraph: insert/remove reach the store once, with the view's graph name, flag returned unchanged", bound="symbolic flag, default/named graph, insert/remove", timeout=900),
     H("c11_graph_as_dataset_mutations", "MutableDataset for GraphAsDataset: insert/remove in the default graph reach the graph as the same operation with the same terms and flag; a named graph is refused (insert) / empty (remove)", bound="symbolic flag, default/named graph, insert/remove", timeout=900),
+    H("c11_union_graph_projections", "UnionGraph's term enumerations are those of its triples: a term occurring only as a graph name is not enumerated; subjects/predicates/objects are the triple's", bound="one quad (1,2,3) in graph 7", timeout=900),
+    H("c11_graph_as_dataset_projections", "GraphAsDataset answers each term enumeration (subjects ... literals, variables) with the wrapped graph's enumeration of the same name; graph_names() is empty", bound="recording graph with one sentinel per enumeration", timeout=900),
     H("c11_graph_as_dataset_queries", "GraphAsDataset::quads_matching forwards iff the selector accepts the default graph; quads come back in the default graph; contains() only there", bound=B, timeout=900),
 ]
 
@@ -42,7 +44,7 @@ def run(rep):
         for h, r in failed:
             rep.violation("kani:sophia_api::" + h.name, kani_unit.describe_failure(r), witness=witness,
                           replay_text="./check C11 --replay <this file>   # replay_src/c11: views over Vec / FastDataset vs filtering the store", confirmed=confirmed)
-    rep.not_covered += ["the de-duplicating projections (subjects(), predicates() ...) of the views", 
+    rep.not_covered += ["quoted_triples() of the views; projections of PartialUnionGraph / DatasetGraph (inherited defaults computed from triples())", 
                         "alternating histories through store and view on the real in-memory stores (only in the native replay)"]
     rep.notes.append("bounded: probe-based forwarding contracts; nothing proved for all matchers")
 
